@@ -234,18 +234,16 @@ def rename_addrs(events):
 def validate(ctx, traces, impl=True):
     ids = ",".join(str(i) for i in range(1, NIDS + 1))
     jobs = {}
-    half = (len(traces) + 1) // 2
-    chunks = [traces[:half], traces[half:]] if len(traces) > 50 else [traces]
-    for ci, ch in enumerate(chunks):
+    chunks = life_common.chunks_by_events(traces, 50000, 3000)
+    for ci, (_b, ch) in enumerate(chunks):
         jobs["ideal%d" % ci] = (life_common.verdicts, (ctx, "Trace_Lifetime", ch, "VERDICT", None, None, 1, 3600,
                                                        TRACE_IDEAL % ids))
         if impl:
             jobs["impl%d" % ci] = (life_common.verdicts, (ctx, "Trace_LifetimeImpl", ch, "IMPL", None, None, 1, 3600,
                                                           TRACE_IMPL % ids))
-    out = life_common.parallel(jobs)
+    out = life_common.run_limited(jobs, 4)
     bad, div = {}, {}
-    base = 0
-    for ci, ch in enumerate(chunks):
+    for ci, (base, ch) in enumerate(chunks):
         got = {int(t[0]): (core.unq(t[1]), int(t[2])) for t in out["ideal%d" % ci]}
         if len(got) != len(ch):
             raise core.MachineryError("Trace_Lifetime: %d verdicts for %d histories" % (len(got), len(ch)))
@@ -259,7 +257,6 @@ def validate(ctx, traces, impl=True):
             for k, (v, pos) in got.items():
                 if v != "same":
                     div[base + k - 1] = (v, pos)
-        base += len(ch)
     return bad, div
 
 
@@ -281,7 +278,7 @@ def design_level(ctx, quick):
         ctx.add_tlc(name, r)
 
     def variant(v, ids, kinds):
-        r = core.tlc("Lifetime", cfg_text=MC % (ids, 2, v, kinds, ""), workers=2, timeout=900)
+        r = core.tlc("Lifetime", cfg_text=MC % (ids, 2, v, kinds, ""), workers=2, timeout=3000)
         ctx.add_tlc("sanity:" + v, r, require_ok=False, count_states=False)
         if r.ok or "RefinesIdeal is violated" not in r.out:
             raise core.MachineryError("broken variant %s of Lifetime was not rejected by TLC:\n%s" % (v, r.out[-1500:]))
@@ -357,10 +354,10 @@ def run(ctx):
     init, out = design_level(ctx, quick)
     phase("tlc-design")
     rng = ctx.rng
-    paths, nedges, ncov = graph_paths(init, out, rng, 300 if quick else 8000, 2500 if quick else None)
+    paths, nedges, ncov = graph_paths(init, out, rng, 300 if quick else 3000, 2500 if quick else None)
     hist = [ops_from_path(p, rng) for p in paths]
     meta = ["model-path"] * len(hist)
-    for _ in range(150 if quick else 3000):
+    for _ in range(150 if quick else 1500):
         hist.append(random_history(rng, rng.randrange(40, 200), NIDS))
         meta.append("random-history")
     ctx.cov["graph"] = {"transitions": nedges, "transitions_replayed": ncov}
